@@ -10,6 +10,7 @@ labelling rule of the statement.
 from __future__ import annotations
 
 import itertools
+import copy
 import json
 import random
 import time
@@ -34,8 +35,8 @@ ASSUMPTIONS = [
     "formats without an exact independent checker are not judged; schemas passed to the generator that still contain $ref are not judged at value level",
     "non-body parts of a case are read through string coercion (some typed reading of the string must be acceptable)",
 ]
-MIN_EVALUATIONS = {"quick": 20000, "thorough": 300000}
-MIN_NONTRIVIAL = {"quick": 2000, "thorough": 20000}
+MIN_EVALUATIONS = {"quick": 20000, "thorough": 150000}
+MIN_NONTRIVIAL = {"quick": 2000, "thorough": 6000}
 REACH_FLOORS = {"values_positive": 3000, "values_negative": 5000, "cases_seen": 3000, "cases_negative": 1500}
 SHARD_TIMEOUT = {"quick": 900, "thorough": 5400}
 
@@ -137,6 +138,44 @@ EXTRA_31 = [
 ]
 
 
+def composite(rng, pool):
+    """-> (schema in 3.0 spelling, location)"""
+    kind = rng.choice(["object", "object", "array", "array", "anyOf", "oneOf", "nullable", "allOf"])
+    pick = lambda: copy.deepcopy(rng.choice(pool))
+    if kind == "object":
+        names = rng.sample(["a", "b", "c", "d-e", "f g"], rng.randint(1, 3))
+        schema = {"type": "object", "properties": {n: pick() for n in names}}
+        required = [n for n in names if rng.random() < 0.6]
+        if required:
+            schema["required"] = required
+        if rng.random() < 0.4:
+            schema["additionalProperties"] = False
+        if rng.random() < 0.2:
+            schema["minProperties"] = 1
+        return schema, "body"
+    if kind == "array":
+        schema = {"type": "array", "items": pick()}
+        lo = rng.choice([None, 0, 1, 2, 3])
+        hi = rng.choice([None, 0, 1, 2, 3, 5])
+        if lo is not None:
+            schema["minItems"] = lo
+        if hi is not None and (lo is None or hi >= lo):
+            schema["maxItems"] = hi
+        items = schema["items"]
+        tiny_domain = "enum" in items or items.get("type") == "boolean" or ("minimum" in items and "maximum" in items) or items.get("maxLength", 9) <= 1
+        if rng.random() < 0.25 and not (tiny_domain and (lo or 0) > 1):
+            schema["uniqueItems"] = True  # (kept satisfiable: enough distinct item values for minItems)
+        return schema, rng.choice(["body", "body", "query", "header", "cookie"])
+    if kind in ("anyOf", "oneOf"):
+        return {kind: [pick(), pick()]}, "body"
+    if kind == "nullable":
+        schema = pick()
+        schema["nullable"] = True
+        return schema, rng.choice(["body", "query"])
+    first = pick()
+    return {"allOf": [first, {"type": first.get("type", "string"), "description": "second branch"}]}, "body"
+
+
 def plan(tier, seed):
     nshards = 16 if tier == "quick" else 32
     return [{"tier": tier, "seed": seed, "shard": i, "nshards": nshards} for i in range(nshards)]
@@ -180,6 +219,61 @@ def coerce_readings(value):
     return out
 
 
+def sibling_explains(schema, value, is_valid):
+    """True when `value` conforms to `schema` only thanks to an alternative: it is rejected by at least one branch of an
+    anyOf / oneOf (or one type of a type list, or the typed side of a nullable schema) somewhere along the value, i.e.
+    a value derived by negating ONE alternative is accepted by a sibling one."""
+    if not isinstance(schema, dict):
+        return False
+    for key in ("anyOf", "oneOf"):
+        branches = schema.get(key)
+        if isinstance(branches, list) and len(branches) > 1:
+            verdicts = [is_valid(value, b) for b in branches]
+            if any(verdicts) and not all(verdicts):
+                return True
+    if schema.get("nullable") or schema.get("x-nullable"):
+        typed = {k: v for k, v in schema.items() if k not in ("nullable", "x-nullable")}
+        verdicts = [is_valid(value, typed), value is None]
+        if any(verdicts) and not all(verdicts):
+            return True
+    types = schema.get("type")
+    if isinstance(types, list) and len(types) > 1:
+        verdicts = [is_valid(value, {**schema, "type": t}) for t in types]
+        if any(verdicts) and not all(verdicts):
+            return True
+    if isinstance(value, dict):
+        for name, sub in value.items():
+            sub_schema = (schema.get("properties") or {}).get(name)
+            if sub_schema is not None and sibling_explains(sub_schema, sub, is_valid):
+                return True
+    if isinstance(value, list) and isinstance(schema.get("items"), dict):
+        return any(sibling_explains(schema["items"], sub, is_valid) for sub in value)
+    return False
+
+
+def invalid_author_values(schema, is_valid, depth=0):
+    """True if somewhere in the schema the author's own example / default violates the sub-schema it annotates: values
+    built from those are the author's, not the generator's (not judged)."""
+    if not isinstance(schema, dict) or depth > 6:
+        return False
+    bare = {k: v for k, v in schema.items() if k not in ("example", "examples", "default", "x-example", "x-examples")}
+    for v in authors_values(schema):
+        if not is_valid(v, bare):
+            return True
+    for key in ("properties",):
+        for sub in (schema.get(key) or {}).values():
+            if invalid_author_values(sub, is_valid, depth + 1):
+                return True
+    for key in ("items", "additionalProperties", "not"):
+        if invalid_author_values(schema.get(key), is_valid, depth + 1):
+            return True
+    for key in ("anyOf", "oneOf", "allOf"):
+        for sub in schema.get(key) or []:
+            if invalid_author_values(sub, is_valid, depth + 1):
+                return True
+    return False
+
+
 def array_readings(value, pschema):
     """Readings of a delimiter-joined wire string for a parameter declared as an array (csv is the default
     collectionFormat in 2.0 and what `simple` / non-exploded `form` produce in 3.x)."""
@@ -188,7 +282,7 @@ def array_readings(value, pschema):
     if not isinstance(value, str) or "array" not in types:
         return []
     if value == "":
-        return [[]]
+        return [[], [""]]  # no items, or one empty item
     parts = value.split(",")
     typed = []
     for part in parts:
@@ -245,6 +339,11 @@ def run_shard(spec, emit):
             for location in ("query", "cookie", "body"):
                 jobs.append((s, location))
     rng.shuffle(jobs)
+    if tier == "thorough":
+        # after the grammar: random compositions of its elements (objects, arrays, combinators, nullable / type lists)
+        full_pool = pool + extra
+        for _ in range(4000):
+            jobs.append(composite(rng, full_pool))
     if tier == "quick":
         special = [j for j in jobs if j[1].endswith("31") or j[0] in EXTRA_BODY]
         rest = [j for j in jobs if j not in special]
@@ -301,6 +400,9 @@ def run_shard(spec, emit):
             try:
                 cases = list(builder._iter_coverage_cases(operation, modes, None))
             except Exception as exc:
+                if type(exc).__name__ in ("InvalidArgument", "Unsatisfiable") and "unique elements" in str(exc):
+                    emit.count("not_judged_unsatisfiable_schema")  # the generated schema admits no value at all
+                    continue
                 emit.viol("C03/coverage-generation-crashed", f"{type(exc).__name__}: {exc}"[:250], {"doc": doc, "modes": [m.value for m in modes]})
                 continue
             context = {"doc": doc, "modes": [m.value for m in modes]}
@@ -311,10 +413,20 @@ def run_shard(spec, emit):
                 if "type" in passed and any(k in passed for k in ("anyOf", "oneOf", "allOf")) and loc in ("header", "cookie", "path", "query"):
                     continue  # the product's internal string-typed wrapper around a combinator, not the author's schema
                 exempt = any(value.value == a and type(value.value) is type(a) for a in authors_values(passed))
+
+                def plain_valid(v, sch, _cls=validator_cls):
+                    try:
+                        return _cls(sch, format_checker=oas_schema.FORMAT_CHECKER).is_valid(v)
+                    except Exception:
+                        return True
+
                 try:
                     valid = validator_cls(passed, format_checker=oas_schema.FORMAT_CHECKER).is_valid(value.value)
                 except Exception:
                     continue
+                if not exempt and not valid and value.generation_mode == GenerationMode.POSITIVE and invalid_author_values(passed, plain_valid):
+                    emit.count("not_judged_author_value_violates_own_schema")
+                    exempt = True
                 label = value.generation_mode
                 emit.count("values_positive" if label == GenerationMode.POSITIVE else "values_negative")
                 sig = f"{json.dumps(passed, sort_keys=True)}|{label.value}|{value.value!r:.40}|{value.description}"
@@ -335,8 +447,9 @@ def run_shard(spec, emit):
                     key = f"C03/value-labelled-invalid-conforms-to-schema:{desc}"
                     if isinstance(passed.get("exclusiveMinimum"), bool) or isinstance(passed.get("exclusiveMaximum"), bool):
                         key += ":boolean-exclusive-bound"
-                    if any(k in passed for k in ("anyOf", "oneOf")):
-                        key += ":valid-for-a-sibling-branch"
+                    if sibling_explains(passed, value.value, plain_valid):
+                        # one mechanism whatever the description of the negated branch says
+                        key = "C03/value-labelled-invalid-conforms-to-schema:valid-for-a-sibling-branch"
                     emit.viol(key, f"{value.value!r:.60} ({value.description}) for {passed}", dict(context, schema=passed))
             # ---- (B) case level
             for case in cases:
@@ -361,6 +474,15 @@ def run_shard(spec, emit):
                     if "$ref" not in json.dumps(body_schema):
                         valid = oas_schema.is_valid(case.body, body_schema, doc=doc, version=version, mode="request")
                         exempt = any(case.body == a for a in authors_values(body_schema))
+
+                        def body_valid(v, sch):
+                            try:
+                                return oas_schema.is_valid(v, sch, doc=doc, version=version, mode="request")
+                            except Exception:
+                                return True
+
+                        if not exempt and not valid and info.mode == GenerationMode.POSITIVE and invalid_author_values(body_schema, body_valid):
+                            exempt = True
                         if not exempt and info.mode == GenerationMode.POSITIVE and not valid:
                             kws = sorted(oas_schema.failing_keywords(case.body, body_schema, doc=doc, version=version, mode="request"))
                             key = f"C03/body-labelled-valid-violates-schema:{'+'.join(kws)}"
@@ -369,8 +491,8 @@ def run_shard(spec, emit):
                             emit.viol(key, f"body={case.body!r:.80} ({data.description}) schema={body_schema}", context)
                         if not exempt and info.mode == GenerationMode.NEGATIVE and valid:
                             key = "C03/body-labelled-invalid-conforms-to-schema:" + (data.description or "").split(":")[0][:40]
-                            if any(k in body_schema for k in ("anyOf", "oneOf")) or body_schema.get("nullable") or body_schema.get("x-nullable") or isinstance(body_schema.get("type"), list):
-                                key += ":valid-for-a-sibling-branch"
+                            if sibling_explains(body_schema, case.body, body_valid):
+                                key = "C03/body-labelled-invalid-conforms-to-schema:valid-for-a-sibling-branch"
                             emit.viol(key, f"body={case.body!r:.80} ({data.description}) schema={body_schema}", context)
                 for loc, attr in (("query", "query"), ("path", "path_parameters"), ("header", "headers"), ("cookie", "cookies")):
                     info = meta.components.get(ComponentKind(attr))
@@ -385,11 +507,20 @@ def run_shard(spec, emit):
                         if isinstance(raw, (dict, list)):
                             verdicts.append(None)
                             continue
+                        items = pschema.get("items") if isinstance(pschema, dict) else None
+                        if isinstance(items, dict) and (items.get("type") in ("array", "object") or any(k in items for k in ("anyOf", "oneOf", "allOf"))):
+                            verdicts.append(None)  # no defined text form for nested containers in this location
+                            continue
                         if loc == "path" and isinstance(raw, str):
                             from urllib.parse import unquote
 
                             raw = unquote(raw)
                         readings = coerce_readings(raw) + array_readings(raw, pschema)
+                        if raw == "" and (pschema.get("nullable") or pschema.get("x-nullable") or (isinstance(pschema.get("type"), list) and "null" in pschema["type"])):
+                            readings.append(None)  # how a null is written in these locations
+                        if isinstance(items, dict) and items.get("type") == "string" and not any(k in items for k in ("enum", "pattern", "format")) and "," in str(raw):
+                            verdicts.append(None)  # free-text items may contain the delimiter themselves: the text form is ambiguous
+                            continue
                         if any(raw == str(a) or raw == a for a in authors_values(pschema)):
                             verdicts.append(None)
                             continue
